@@ -50,6 +50,7 @@ Inductive tag :=
   | PLeftNull (c : cmpop) | PNullRight (c : cmpop) | PNullNull (c : cmpop)
   | PNot
   | PSeqRep | PRepSeq | PCollIn | PSeqConcat
+  | PSetCmp (c : cmpop) | PSetDiff | PDictAdd
   | POther (n : nat).
 
 Definition cmpop_index (c : cmpop) : nat := match c with CLt => 0 | CLe => 1 | CGt => 2 | CGe => 3 end.
@@ -61,6 +62,7 @@ Definition tag_index (t : tag) : nat * nat :=
   | PStrIn => (12, 0) | PEq => (13, 0) | PNeq => (14, 0)
   | PLeftNull c => (15, cmpop_index c) | PNullRight c => (16, cmpop_index c) | PNullNull c => (17, cmpop_index c)
   | PNot => (18, 0) | PSeqRep => (19, 0) | PRepSeq => (20, 0) | PCollIn => (21, 0) | PSeqConcat => (22, 0)
+  | PSetCmp c => (24, cmpop_index c) | PSetDiff => (25, 0) | PDictAdd => (26, 0)
   | POther n => (23, n)
   end.
 Definition tag_eqb (a b : tag) : bool :=
@@ -193,12 +195,15 @@ Section Values.
 Variable F : Type.
 
 Inductive val := VNull | VBool (b : bool) | VInt (z : Z) | VFloat (f : F) | VStr (s : list Z)
-               | VList (l : list Z) | VTuple (l : list Z) | VOpaque (k : kind).
+               | VList (l : list Z) | VTuple (l : list Z)
+               | VSet (l : list Z)               (* set / frozenset of integers, as a list (any order) *)
+               | VDict (d : list (Z * Z))        (* dict with integer keys and values, keys distinct *)
+               | VOpaque (k : kind).
 
 Definition kind_of (v : val) : kind :=
   match v with
   | VNull => KNull | VBool _ => KBool | VInt _ => KInt | VFloat _ => KFloat | VStr _ => KStr
-  | VList _ => KList | VTuple _ => KTuple | VOpaque k => k
+  | VList _ => KList | VTuple _ => KTuple | VSet _ => KSet | VDict _ => KDict | VOpaque k => k
   end.
 
 Inductive res := RVal (v : val) | RErr (e : err).
@@ -266,6 +271,32 @@ Definition repetition (l : list Z) (n : Z) : option (list Z) :=
               else Some (repeat_list (Z.to_nat n) l)
        end.
 
+(* ---- sets and dicts of integers *)
+Definition zmem (x : Z) (l : list Z) : bool := existsb (Z.eqb x) l.
+Definition subsetb (a b : list Z) : bool := forallb (fun x => zmem x b) a.
+Definition set_eqb (a b : list Z) : bool := subsetb a b && subsetb b a.
+(* Python: a <= b is issubset; a < b is proper subset *)
+Definition set_cmp (c : cmpop) (a b : list Z) : bool :=
+  match c with
+  | CLe => subsetb a b
+  | CLt => subsetb a b && negb (subsetb b a)
+  | CGe => subsetb b a
+  | CGt => subsetb b a && negb (subsetb a b)
+  end.
+Definition set_diff (a b : list Z) : list Z := filter (fun x => negb (zmem x b)) a.
+Fixpoint set_union (a b : list Z) : list Z :=
+  match a with [] => b | x :: a' => if zmem x b then set_union a' b else x :: set_union a' b end.
+
+Fixpoint dlookup (k : Z) (d : list (Z * Z)) : option Z :=
+  match d with [] => None | (k', v) :: r => if Z.eqb k k' then Some v else dlookup k r end.
+Definition dkeys (d : list (Z * Z)) : list Z := map fst d.
+(* dict(left); update(right): right wins *)
+Definition dict_add (a b : list (Z * Z)) : list (Z * Z) :=
+  filter (fun kv => negb (zmem (fst kv) (dkeys b))) a ++ b.
+Definition dict_sub (a b : list (Z * Z)) : bool :=
+  forallb (fun kv => match dlookup (fst kv) b with Some v => Z.eqb v (snd kv) | None => false end) a.
+Definition dict_eqb (a b : list (Z * Z)) : bool := dict_sub a b && dict_sub b a.
+
 (* ---- numbers *)
 Inductive num := NI (z : Z) | NF (f : F).
 Definition as_num (v : val) : option num :=
@@ -328,6 +359,8 @@ Definition py_eq (a b : val) : bool :=
     | VStr s, VStr t => match str_compare s t with Eq => true | _ => false end
     | VList l, VList m => list_eqb Z.eqb l m
     | VTuple l, VTuple m => list_eqb Z.eqb l m
+    | VSet l, VSet m => set_eqb l m
+    | VDict l, VDict m => dict_eqb l m
     | _, _ => false
     end
   end.
@@ -340,12 +373,19 @@ Definition truthy (v : val) : option bool :=
   | VInt z => Some (negb (Z.eqb z 0))
   | VFloat f => Some (negb (is_eq (fo_cmpZ fo 0%Z f)))
   | VStr s => Some (match s with [] => false | _ => true end)
-  | VList l | VTuple l => Some (match l with [] => false | _ => true end)
+  | VList l | VTuple l | VSet l => Some (match l with [] => false | _ => true end)
+  | VDict d => Some (match d with [] => false | _ => true end)
   | VOpaque _ => None
   end.
 
 Definition seq_items (v : val) : option (list Z) :=
   match v with VList l | VTuple l => Some l | _ => None end.
+
+(* what iterating the value yields (dict: its keys); sets have no modelled iteration order *)
+Definition iter_items (v : val) : option (list Z) :=
+  match v with VList l | VTuple l => Some l | VDict d => Some (dkeys d) | _ => None end.
+Definition members (v : val) : option (list Z) :=
+  match v with VSet l => Some l | _ => iter_items v end.
 
 Definition rep_result (mk : list Z -> val) (l : list Z) (n : val) : res :=
   match n with
@@ -402,16 +442,24 @@ Definition run_payload (t : tag) (args : list val) : res :=
     | _ => RErr EUnmodelled
     end
   | PCollIn, [a; b] =>
-    match a, seq_items b with
+    match a, members b with
     | VOpaque _, _ => RErr EUnmodelled
     | _, Some l => RVal (VBool (existsb (fun x => py_eq a (VInt x)) l))
     | _, None => RErr EUnmodelled
     end
   | PSeqConcat, [a; b] =>
-    match seq_items a, seq_items b with
-    | Some l, Some m => RVal (VList (l ++ m))
-    | _, _ => RErr EUnmodelled
+    match a, b with
+    | VTuple l, VTuple m => RVal (VTuple (l ++ m))
+    | VSet l, VSet m => RVal (VSet (set_union l m))         (* frozenset + frozenset: union *)
+    | _, _ =>
+      match iter_items a, iter_items b with
+      | Some l, Some m => RVal (VList (l ++ m))
+      | _, _ => RErr EUnmodelled
+      end
     end
+  | PSetCmp c, [VSet l; VSet m] => RVal (VBool (set_cmp c l m))
+  | PSetDiff, [VSet l; VSet m] => RVal (VSet (set_diff l m))
+  | PDictAdd, [VDict l; VDict m] => RVal (VDict (dict_add l m))
   | _, _ => RErr EUnmodelled
   end.
 
@@ -426,6 +474,7 @@ End Values.
 
 Arguments VNull {F}. Arguments VBool {F}. Arguments VInt {F}. Arguments VFloat {F}.
 Arguments VStr {F}. Arguments VList {F}. Arguments VTuple {F}. Arguments VOpaque {F}.
+Arguments VSet {F}. Arguments VDict {F}.
 Arguments RVal {F}. Arguments RErr {F}.
 Arguments NI {F}. Arguments NF {F}.
 
@@ -558,6 +607,8 @@ Definition val_same (a b : val F) : bool :=
   | VStr x, VStr y => list_eqb Z.eqb x y
   | VList x, VList y => list_eqb Z.eqb x y
   | VTuple x, VTuple y => list_eqb Z.eqb x y
+  | VSet x, VSet y => set_eqb x y
+  | VDict x, VDict y => dict_eqb x y
   | _, _ => false
   end.
 
